@@ -1,39 +1,17 @@
 import OxyModel.Model.Buffer
 
-/-! `utils.CopyHeaders` into an empty map reproduces a well-formed header map. -/
+/-! `utils.CopyHeaders` into an empty map reproduces a header map with distinct keys. -/
 namespace Buf.Header
 
-/-- a header map: every key once, no empty value list -/
-def WF (h : Header) : Prop := h.Pairwise (fun e f => e.1 ≠ f.1) ∧ ∀ e ∈ h, e.2 ≠ []
+/-- a Go map: every key once -/
+def WF (h : Header) : Prop := h.Pairwise (fun e f => e.1 ≠ f.1)
 
-theorem add_fresh (d : Header) (k v : String) (hk : ∀ e ∈ d, e.1 ≠ k) : add d k v = d ++ [(k, [v])] := by
-  unfold add
+theorem appendVals_fresh (d : Header) (k : String) (vs : List String) (hk : ∀ e ∈ d, e.1 ≠ k) :
+    appendVals d k vs = d ++ [(k, vs)] := by
+  unfold appendVals
   have : d.any (fun e => e.1 == k) = false := by
     rw [List.any_eq_false]; intro e he; simpa using hk e he
   simp [this]
-
-theorem add_last (d : Header) (k v : String) (ws : List String) (hk : ∀ e ∈ d, e.1 ≠ k) :
-    add (d ++ [(k, ws)]) k v = d ++ [(k, ws ++ [v])] := by
-  unfold add
-  have hany : (d ++ [(k, ws)]).any (fun e => e.1 == k) = true := by simp
-  rw [if_pos hany, List.map_append]
-  congr 1
-  · rw [List.map_congr_left (g := id)]
-    · simp
-    · intro e he; have := hk e he; simp [this]
-  · simp
-
-theorem foldl_add_last (d : Header) (k : String) (hk : ∀ e ∈ d, e.1 ≠ k) (vs : List String) :
-    ∀ ws, vs.foldl (fun d v => add d k v) (d ++ [(k, ws)]) = d ++ [(k, ws ++ vs)] := by
-  induction vs with
-  | nil => intro ws; simp
-  | cons v vs ih => intro ws; rw [List.foldl_cons, add_last d k v ws hk, ih]; simp
-
-theorem foldl_add_fresh (d : Header) (k : String) (hk : ∀ e ∈ d, e.1 ≠ k) (vs : List String) (hne : vs ≠ []) :
-    vs.foldl (fun d v => add d k v) d = d ++ [(k, vs)] := by
-  cases vs with
-  | nil => exact absurd rfl hne
-  | cons v vs => rw [List.foldl_cons, add_fresh d k v hk, foldl_add_last d k hk vs]; simp
 
 theorem copyInto_append (src : Header) : ∀ dst : Header, WF src → (∀ e ∈ dst, ∀ f ∈ src, e.1 ≠ f.1) →
     copyInto dst src = dst ++ src := by
@@ -41,20 +19,20 @@ theorem copyInto_append (src : Header) : ∀ dst : Header, WF src → (∀ e ∈
   | nil => intro dst _ _; simp [copyInto]
   | cons e src ih =>
     intro dst hwf hdis
-    obtain ⟨hp, hne⟩ := hwf
-    rw [List.pairwise_cons] at hp
-    have h1 : e.2.foldl (fun d v => add d e.1 v) dst = dst ++ [(e.1, e.2)] :=
-      foldl_add_fresh dst e.1 (fun x hx => hdis x hx e List.mem_cons_self) e.2 (hne e List.mem_cons_self)
+    unfold WF at hwf
+    rw [List.pairwise_cons] at hwf
+    have h1 : appendVals dst e.1 e.2 = dst ++ [(e.1, e.2)] :=
+      appendVals_fresh dst e.1 e.2 (fun x hx => hdis x hx e List.mem_cons_self)
     have : copyInto dst (e :: src) = copyInto (dst ++ [(e.1, e.2)]) src := by
       unfold copyInto; rw [List.foldl_cons, h1]
-    rw [this, ih (dst ++ [(e.1, e.2)]) ⟨hp.2, fun x hx => hne x (List.mem_cons_of_mem _ hx)⟩]
+    rw [this, ih (dst ++ [(e.1, e.2)]) hwf.2]
     · simp
     · intro x hx f hf
       rcases List.mem_append.mp hx with hx | hx
       · exact hdis x hx f (List.mem_cons_of_mem _ hf)
-      · simp only [List.mem_singleton] at hx; subst hx; exact hp.1 f hf
+      · simp only [List.mem_singleton] at hx; subst hx; exact hwf.1 f hf
 
-/-- copying a well-formed header map into a fresh map gives the same map -/
+/-- copying a header map with distinct keys into a fresh map gives the same map -/
 theorem copyInto_nil (h : Header) (hwf : WF h) : copyInto [] h = h := by
   have := copyInto_append h [] hwf (fun e he => by cases he)
   simpa using this
